@@ -223,6 +223,9 @@ func runC03(c *Check) {
 	}
 	ruleForeignKeyNilChecked(c, p, depth)
 	rulePooledMemoryNotReturned(c, "C03-R7", []*Prog{p})
+	// third-party bytes (the raw blob, and the byte fields of what decodes from it) are sliced, indexed or
+	// converted to an array only under a test of their length: a junk blob must not end the scan goroutine
+	ruleBlobBytesBoundsChecked(c, p, "C03-R8")
 	for in, fn := range allSinks {
 		if !covered[in] {
 			c.Bad("C03-R5", "unaccounted sink in "+fnShort(fn), fnName(fn), p.InstrPos(in), "a header/data sink (sync channel send or SetDAIncluded) outside every worker loop's admission path", nil)
